@@ -386,6 +386,13 @@ class Process:
             # https://github.com/giampaolo/psutil/issues/2366#issuecomment-2381646555
             self._create_time = self._proc.create_time(fast_only=True)
             return (self.pid, self._create_time)
+        elif LINUX:
+            # Use the start time relative to system boot: differently
+            # from create_time() it does not depend on boot_time(),
+            # hence it is not affected by system clock updates.
+            with self.oneshot():
+                self.create_time()  # cached, as on the other platforms
+                return (self.pid, self._proc.create_time(monotonic=True))
         else:
             return (self.pid, self.create_time())
 
